@@ -18,48 +18,260 @@ def rsaMatches (L : Nat) : List Nat :=
 def sigMatches (L : Nat) : List Curve :=
   (sigTable.filter (fun p => KeysTables.sigCurveStep L p.2)).map (·.1)
 
+/-! ### the generated integer tests, as propositions (generic in the table values) -/
+
+theorem rsaWin_iff (kb L : Nat) : KeysTables.rsaRawWindow kb L = true ↔ kb + 3 ≤ L ∧ L ≤ kb + 4 := by
+  simp [KeysTables.rsaRawWindow]
+
+theorem sigStep_iff (L c : Nat) :
+    KeysTables.sigCurveStep L c = true ↔ (L = c * 2 ∨ (c * 2 + 3 ≤ L ∧ L < c * 2 + 9)) := by
+  simp [KeysTables.sigCurveStep]
+
+theorem eccStep_false_iff (k L : Nat) :
+    KeysTables.eccGetCurveStep k L = some false ↔ L = (k + 7) / 8 * 2 := by
+  simp only [KeysTables.eccGetCurveStep]
+  (repeat' split) <;> simp_all <;> omega
+
+theorem eccStep_true_iff (k L : Nat) :
+    KeysTables.eccGetCurveStep k L = some true ↔ ((k + 7) / 8 * 2 + 7 ≤ L ∧ L ≤ (k + 7) / 8 * 2 + 9) := by
+  simp only [KeysTables.eccGetCurveStep]
+  (repeat' split) <;> simp_all <;> omega
+
+theorem eccStep_none_iff (k L : Nat) :
+    KeysTables.eccGetCurveStep k L = none ↔ (L ≠ (k + 7) / 8 * 2 ∧ ¬ ((k + 7) / 8 * 2 + 7 ≤ L ∧ L ≤ (k + 7) / 8 * 2 + 9)) := by
+  simp only [KeysTables.eccGetCurveStep]
+  (repeat' split) <;> simp_all <;> omega
+
+theorem eccStep_none (c : Curve) (L : Nat) (h : 1024 ≤ L) : KeysTables.eccGetCurveStep c.keySize L = none := by
+  rw [eccStep_none_iff]
+  cases c <;> simp only [Curve.keySize] <;> omega
+
+theorem rsaWin_false (ks L : Nat) (hks : ks ∈ KeysTables.rsaSupportedKeySizes) (h : 1024 ≤ L) :
+    KeysTables.rsaRawWindow (KeysTables.rsaKeySizeBytes ks) L = false := by
+  rw [← Bool.not_eq_true, rsaWin_iff]
+  simp [KeysTables.rsaSupportedKeySizes] at hks
+  rcases hks with rfl | rfl | rfl <;> simp only [KeysTables.rsaKeySizeBytes] <;> omega
+
+theorem sigTable_eq : sigTable = [(.p256, 32), (.p384, 48), (.p521, 66)] := by decide
+
+theorem sigStep_false (p : Curve × Nat) (L : Nat) (hp : p ∈ sigTable) (h : 1024 ≤ L) :
+    KeysTables.sigCurveStep L p.2 = false := by
+  rw [← Bool.not_eq_true, sigStep_iff]
+  rw [sigTable_eq] at hp
+  simp at hp
+  rcases hp with rfl | rfl | rfl <;> simp only [] <;> omega
+
+/-! ### RSA raw `modulus ‖ exponent` -/
+
+theorem two_pow_eight_mul (k : Nat) : 2 ^ (8 * k) = 256 ^ k := by
+  rw [Nat.pow_mul]
+
+/-- a number of exactly `8 * k` bits occupies exactly `k` bytes -/
+theorem byteLen_topbit (n ks k : Nat) (hks : ks = 8 * k) (hk : 0 < k) (hn : TopBit n ks) : byteLen n = k := by
+  subst hks
+  obtain ⟨h1, h2⟩ := hn
+  rw [two_pow_eight_mul] at h2
+  have hle : byteLen n ≤ k := byteLen_le_of_lt n k h2
+  have h3 : 256 ^ (k - 1) ≤ 2 ^ (8 * k - 1) := by
+    rw [← two_pow_eight_mul]
+    exact Nat.pow_le_pow_right (by omega) (by omega)
+  have hge : k ≤ byteLen n := le_byteLen_of_le n k (Nat.le_trans h3 h1) hk
+  omega
+
+theorem byteLen_exp (e : Nat) (he : 65536 ≤ e ∧ e < 2 ^ 32) : byteLen e = 3 ∨ byteLen e = 4 := by
+  have h1 : 3 ≤ byteLen e := le_byteLen_of_le e 3 (by simpa using he.1) (by omega)
+  have h2 : byteLen e ≤ 4 := byteLen_le_of_lt e 4 (by simpa using he.2)
+  omega
+
+theorem rsaExport_eq (n e : Nat) : rsaExportNxp n e = .ok (beEnc (byteLen n) n ++ beEnc (byteLen e) e) := by
+  simp [rsaExportNxp, toBytes_ok, lt_pow_byteLen]
+
+theorem rsaSizes_cases (ks : Nat) (hks : ks ∈ KeysTables.rsaSupportedKeySizes) :
+    ks = 2048 ∨ ks = 3072 ∨ ks = 4096 := by
+  simpa [KeysTables.rsaSupportedKeySizes] using hks
+
+/-- the windows of the supported RSA sizes are disjoint, so a length inside the window of `ks` selects `ks / 8` -/
+theorem rsaRecreate_of_len (d : Bytes) (ks : Nat) (hks : ks ∈ KeysTables.rsaSupportedKeySizes)
+    (hlen : ks / 8 + 3 ≤ d.length ∧ d.length ≤ ks / 8 + 4) :
+    rsaRecreateNumbers d = .ok (beDec (d.take (ks / 8)), beDec (d.drop (ks / 8))) := by
+  unfold rsaRecreateNumbers
+  cases hf : KeysTables.rsaSupportedKeySizes.find?
+      (fun ks => KeysTables.rsaRawWindow (KeysTables.rsaKeySizeBytes ks) d.length) with
+  | none =>
+    have := List.find?_eq_none.1 hf ks hks
+    rw [rsaWin_iff] at this
+    simp only [KeysTables.rsaKeySizeBytes] at this
+    omega
+  | some ks' =>
+    have hp := List.find?_some hf
+    have hm := List.mem_of_find?_eq_some hf
+    rw [rsaWin_iff] at hp
+    simp only [KeysTables.rsaKeySizeBytes] at hp ⊢
+    have : ks' / 8 = ks / 8 := by
+      rcases rsaSizes_cases ks hks with rfl | rfl | rfl <;>
+        rcases rsaSizes_cases ks' hm with rfl | rfl | rfl <;> omega
+    rw [this]
+
 theorem rsa_raw_roundtrip (ks n e : Nat) (hks : ks ∈ KeysTables.rsaSupportedKeySizes) (hn : TopBit n ks)
     (he : 65536 ≤ e ∧ e < 2 ^ 32) :
     ∃ d, rsaExportNxp n e = .ok d ∧ d = beEnc (ks / 8) n ++ beEnc (byteLen e) e ∧
       (d.length = ks / 8 + 3 ∨ d.length = ks / 8 + 4) ∧ rsaRecreateNumbers d = .ok (n, e) := by
-  sorry
+  have hk : ks = 8 * (ks / 8) ∧ 0 < ks / 8 := by
+    rcases rsaSizes_cases ks hks with rfl | rfl | rfl <;> omega
+  have hbn : byteLen n = ks / 8 := byteLen_topbit n ks (ks / 8) hk.1 hk.2 hn
+  have hbe := byteLen_exp e he
+  have hlen : (beEnc (ks / 8) n ++ beEnc (byteLen e) e).length = ks / 8 + byteLen e := by
+    rw [List.length_append, beEnc_length, beEnc_length]
+  refine ⟨_, ?_, rfl, ?_, ?_⟩
+  · rw [rsaExport_eq, hbn]
+  · rw [hlen]; omega
+  · rw [rsaRecreate_of_len _ ks hks (by rw [hlen]; omega)]
+    rw [List.take_left' (beEnc_length _ _), List.drop_left' (beEnc_length _ _)]
+    rw [beDec_beEnc _ _ (lt_pow_byteLen e), beDec_beEnc]
+    rw [← hbn]; exact lt_pow_byteLen n
+
+/-! ### ECC raw `X ‖ Y` -/
+
+theorem eccGetCurve_raw (c : Curve) :
+    eccGetCurve (2 * c.cl) none = .ok (c, false) ∧ eccGetCurve (2 * c.cl) (some c) = .ok (c, false) := by
+  cases c <;> decide
+
+theorem eccRecreate_raw (ext : Ext) (c : Curve) (x y : Nat) (hx : x < 256 ^ c.cl) (hy : y < 256 ^ c.cl)
+    (hon : ext.onCurve c x y = true) (o : Option Curve) (ho : eccGetCurve (2 * c.cl) o = .ok (c, false)) :
+    eccRecreateFromData ext (rawSig c x y) o = .ok (.ecc c x y) := by
+  have hl : (rawSig c x y).length = 2 * c.cl := pair_length _ _ _
+  have hh : 2 * c.cl / 2 = c.cl := by omega
+  unfold eccRecreateFromData
+  rw [hl, ho]
+  simp only [hh]
+  unfold rawSig
+  rw [take_pair, drop_pair, beDec_beEnc _ _ hx, beDec_beEnc _ _ hy, hon]
+  simp
 
 theorem ecc_raw_roundtrip (ext : Ext) (c : Curve) (x y : Nat) (hx : x < 256 ^ c.cl) (hy : y < 256 ^ c.cl)
     (hon : ext.onCurve c x y = true) :
     eccExportNxp c x y = .ok (rawSig c x y) ∧ (rawSig c x y).length = 2 * c.cl ∧
       eccRecreateFromData ext (rawSig c x y) none = .ok (.ecc c x y) ∧
-      eccRecreateFromData ext (rawSig c x y) (some c) = .ok (.ecc c x y) := by
-  sorry
+      eccRecreateFromData ext (rawSig c x y) (some c) = .ok (.ecc c x y) :=
+  ⟨rawPair_ok _ _ _ hx hy, pair_length _ _ _,
+   eccRecreate_raw ext c x y hx hy hon none (eccGetCurve_raw c).1,
+   eccRecreate_raw ext c x y hx hy hon (some c) (eccGetCurve_raw c).2⟩
+
+/-! ### length windows -/
+
+theorem raw_small : ∀ L, L < 1024 →
+    ((eccMatches L).length + (rsaMatches L).length ≤ 1 ∧ (sigMatches L).length ≤ 1) := by
+  decide +kernel
 
 theorem raw_lengths_unambiguous (L : Nat) :
     (eccMatches L).length + (rsaMatches L).length ≤ 1 ∧ (sigMatches L).length ≤ 1 := by
-  sorry
+  by_cases h : L < 1024
+  · exact raw_small L h
+  · have h' : 1024 ≤ L := by omega
+    have e1 : eccMatches L = [] := by
+      unfold eccMatches
+      rw [List.filterMap_eq_nil_iff]
+      intro c _
+      simp [eccStep_none c L h']
+    have e2 : rsaMatches L = [] := by
+      unfold rsaMatches
+      rw [List.filter_eq_nil_iff]
+      intro ks hks
+      simp [rsaWin_false ks L hks h']
+    have e3 : sigMatches L = [] := by
+      unfold sigMatches
+      rw [List.map_eq_nil_iff, List.filter_eq_nil_iff]
+      intro p hp
+      simp [sigStep_false p L hp h']
+    simp [e1, e2, e3]
+
+theorem sniff_small : ∀ L, L < 1024 → (KeysTables.sigSniffNxp L = true ↔ L ∈ [64, 65, 96, 97, 132, 133]) := by
+  decide +kernel
 
 theorem sniffed_raw_lengths (L : Nat) :
     KeysTables.sigSniffNxp L = true ↔ L ∈ [64, 65, 96, 97, 132, 133] := by
-  sorry
+  by_cases h : L < 1024
+  · exact sniff_small L h
+  · have h' : 1024 ≤ L := by omega
+    constructor
+    · intro hs
+      simp [KeysTables.sigSniffNxp, KeysTables.coordinateLengths] at hs
+      omega
+    · intro hm
+      simp at hm
+      omega
+
+/-! ### `get_file_encodings` -/
 
 theorem sniff_der_long (l : UInt8) (rest : Bytes) (hl : 0x80 ≤ l.toNat ∧ l.toNat ≤ 0xBF) :
     fileEncoding (0x30 :: l :: rest) = .der := by
-  sorry
+  have : utf8Valid (0x30 :: l :: rest) = false := by
+    have h1 : ¬ l.toNat < 128 := by omega
+    have h2 : ¬ (194 ≤ l.toNat ∧ l.toNat ≤ 223) := by omega
+    have h3 : ¬ (224 ≤ l.toNat ∧ l.toNat ≤ 239) := by omega
+    have h4 : ¬ (240 ≤ l.toNat ∧ l.toNat ≤ 244) := by omega
+    simp [utf8Valid, utf8ValidF, h1, h2, h3, h4]
+  simp [fileEncoding, this]
+
+theorem utf8_ascii : ∀ (f : Nat) (d : Bytes), d.length ≤ f → (∀ b ∈ d, b.toNat < 128) → utf8ValidF f d = true := by
+  intro f
+  induction f with
+  | zero => intro d hl _; cases d with
+    | nil => simp [utf8ValidF]
+    | cons a t => simp at hl
+  | succ f ih =>
+    intro d hl ha
+    cases d with
+    | nil => simp [utf8ValidF]
+    | cons a t =>
+      have h1 : a.toNat < 128 := ha a (by simp)
+      simp [utf8ValidF, h1]
+      apply ih
+      · simp at hl; omega
+      · intro b hb; exact ha b (by simp [hb])
 
 theorem sniff_pem_ascii (d : Bytes) (hascii : ∀ b ∈ d, b.toNat < 128) (hd : hasDashes d = true) :
     fileEncoding d = .pem := by
-  sorry
+  simp [fileEncoding, hd, utf8Valid, utf8_ascii d.length d (Nat.le_refl _) hascii]
 
 theorem sniff_no_dashes (d : Bytes) (hd : hasDashes d = false) : fileEncoding d = .der := by
-  sorry
+  simp [fileEncoding, hd]
+
+/-! ### `PublicKey.parse` routing -/
 
 theorem pubparse_nxp_ecc (ext : Ext) (c : Curve) (x y : Nat) (hx : x < 256 ^ c.cl) (hy : y < 256 ^ c.cl)
     (hon : ext.onCurve c x y = true) (hder : ext.loadDer = none) (hs : fileEncoding (rawSig c x y) = .der) :
     pubParse ext (rawSig c x y) = .ok (.ecc c x y) ∧ pubParseEcc ext (rawSig c x y) = .ok (.ecc c x y) ∧
       pubParseRsa ext (rawSig c x y) = .error .spsdk := by
-  sorry
+  have h1 : pubParse ext (rawSig c x y) = .ok (.ecc c x y) := by
+    simp [pubParse, hs, hder, (ecc_raw_roundtrip ext c x y hx hy hon).2.2.1]
+  refine ⟨h1, ?_, ?_⟩
+  · simp [pubParseEcc, h1]
+  · simp [pubParseRsa, h1]
+
+theorem eccGetCurve_rsa_len (ks L : Nat) (hks : ks ∈ KeysTables.rsaSupportedKeySizes)
+    (h : ks / 8 + 3 ≤ L ∧ L ≤ ks / 8 + 4) : eccGetCurve L none = .error .spsdk := by
+  have : L = 259 ∨ L = 260 ∨ L = 387 ∨ L = 388 ∨ L = 515 ∨ L = 516 := by
+    rcases rsaSizes_cases ks hks with rfl | rfl | rfl <;> omega
+  rcases this with rfl | rfl | rfl | rfl | rfl | rfl <;> decide
 
 theorem pubparse_nxp_rsa (ext : Ext) (ks n e : Nat) (hks : ks ∈ KeysTables.rsaSupportedKeySizes) (hn : TopBit n ks)
     (he : 65536 ≤ e ∧ e < 2 ^ 32) (hok : ext.rsaOk n e = true) (hder : ext.loadDer = none)
     (d : Bytes) (hd : rsaExportNxp n e = .ok d) (hs : fileEncoding d = .der) :
     pubParse ext d = .ok (.rsa n e) ∧ pubParseRsa ext d = .ok (.rsa n e) ∧ pubParseEcc ext d = .error .spsdk := by
-  sorry
+  obtain ⟨d', hd', _, hlen, hrec⟩ := rsa_raw_roundtrip ks n e hks hn he
+  have hdd : d' = d := by
+    rw [hd'] at hd; exact Except.ok.inj hd
+  subst hdd
+  have hecc : eccRecreateFromData ext d' none = .error .spsdk := by
+    unfold eccRecreateFromData
+    rw [eccGetCurve_rsa_len ks d'.length hks (by omega)]
+  have hrsa : rsaRecreateFromData ext d' = .ok (.rsa n e) := by
+    simp [rsaRecreateFromData, hrec, hok]
+  have h1 : pubParse ext d' = .ok (.rsa n e) := by
+    simp [pubParse, hs, hder, hecc, hrsa]
+  refine ⟨h1, ?_, ?_⟩
+  · simp [pubParseRsa, h1]
+  · simp [pubParseEcc, h1]
 
 end SpsdkVerif.Keys.B
